@@ -1115,6 +1115,23 @@ func (r *rw) recvAddr(se *ast.SelectorExpr) ast.Expr {
 // special returns the runtime replacement of a call on a synchronisation
 // primitive, or nil.
 func (r *rw) special(c *ast.CallExpr) ast.Expr {
+	// a call of a context.CancelFunc / CancelCauseFunc value: the close of the context's Done
+	// channel happens inside package context, where the happens-before monitor cannot see
+	// it; the call is routed through the runtime so that it counts as a release (§3.6)
+	if tv, ok := r.info.Types[c.Fun]; ok && tv.Type != nil && !tv.IsType() {
+		if n, ok := tv.Type.(*types.Named); ok && n.Obj() != nil && n.Obj().Pkg() != nil && n.Obj().Pkg().Path() == "context" {
+			switch n.Obj().Name() {
+			case "CancelFunc":
+				if len(c.Args) == 0 {
+					return r.call("CallCancel", r.expr(c.Fun, ctxRead), r.site("cancel", c.Pos()))
+				}
+			case "CancelCauseFunc":
+				if len(c.Args) == 1 {
+					return r.call("CallCancelCause", r.expr(c.Fun, ctxRead), r.expr(c.Args[0], ctxRead), r.site("cancel", c.Pos()))
+				}
+			}
+		}
+	}
 	switch f := unparen(c.Fun).(type) {
 	case *ast.Ident:
 		if b, ok := r.info.Uses[f].(*types.Builtin); ok {
